@@ -47,18 +47,40 @@ def plan(rng, tier):
     cfg["subclass"] = (not cfg["stored"]) and cfg["leaf"] is not None and \
         rng.random() < 0.15
     pre = 0
+    huge = False
     if cfg["leaf"] is None:
         cfg["dom"]["nk"] = rng.choice([400, 900, 1500])
         cfg["dom"]["ext"] = False
         pre = int(cfg["dom"]["nk"] * rng.choice([0.5, 0.8, 1.0]))
+        if cfg["dom"]["fam"][0] == "O" and rng.random() < (
+                0.05 if tier == "quick" else 0.15):
+            # LARGE: interior nodes split at their DEFAULT fan-out (object
+            # keys: leaves of 30 / 60, 250 children -- the root splits at
+            # 500 children, i.e. after ~7500 sequential keys)
+            huge = True
+            cfg["dom"]["nk"] = rng.choice([8500, 10000, 12000])
+            if cfg["dom"]["fam"] != "OO" or cfg["kind"] == "TreeSet":
+                # (leaves of 60: twice as many keys for the same fan-out)
+                cfg["dom"]["nk"] *= 2
+            cfg["dom"]["kflavor"] = rng.choice(["int", "str"])
+            cfg["dom"].pop("none", None)
+            pre = cfg["dom"]["nk"] - rng.randrange(300)
     dom = Domain(cfg["dom"])
     g = common.Gen(rng, dom, cfg["kind"])
     g.p_bad = 0.05
     hist = []
-    if pre:
+    if pre and huge and rng.random() < 0.6:
+        # ascending: every leaf is filled and split in turn
+        for k in range(pre):
+            op = ["set", k, g.val()] if g.mapping else ["add", k]
+            g.model.apply(op)
+            hist.append(op)
+    elif pre:
         hist.extend(g.fill(pre))
     n = rng.randint(30, 90) if tier == "quick" else rng.choice(
         [40, 80, 150, 250, 400])
+    if huge:
+        n = rng.randint(8, 20)
     style = rng.random()
     if style < 0.35 and not pre:
         # grow to (almost) full, then phases
@@ -66,8 +88,14 @@ def plan(rng, tier):
     hist.extend(g.history(n))
     if cfg["stored"]:
         out = []
-        for op in hist:
+        npre = pre
+        for j, op in enumerate(hist):
+            if j == npre and npre:
+                pre = len(out)      # (index of the first call after the
+                #                      preload in the final list)
             out.append(op)
+            if j < npre and huge:
+                continue            # (no commits inside a large preload)
             if rng.random() < 0.1:
                 out.append(["commit"])
                 if rng.random() < 0.6:
